@@ -57,9 +57,21 @@ def one_scenario(chk, idx, branch):
     key_batch = {pipeline.content_key(b): bt for b, bt in zip(blobs, batches)}
     expected = by_path(batches)
     reports = []
+    # sometimes one plain-file argument is listed twice: every listed path is an input, wherever it stands
+    dup = None
+    plain = [x for x in args if os.path.isfile(x) and x.endswith(".info")]
+    if plain and rng.random() < 0.35:
+        dup = rng.choice(plain)
+        di = int(os.path.basename(dup)[1:-5])
+        batches_x = batches + [batches[di]]
+        expected = by_path(batches_x)
+        key_count = {}
     for run_no, threads in enumerate(rng.sample([1, 2, 3, 4, 8, 16], 3)):
         a = list(args)
         rng.shuffle(a)
+        if dup:
+            a.remove(dup)
+            a = [dup, dup] + a if run_no % 2 == 0 else [dup] + a + [dup]
         log = os.path.join(root, "log_%d.txt" % run_no)
         sched = rng.randrange(1, 10**6) if run_no else None
         rc, out, err = pipeline.run_cli(a, threads, branch, log=log, sched=sched, cwd=root)
@@ -79,7 +91,8 @@ def one_scenario(chk, idx, branch):
         # trace validation against the LTS
         per, _ = pipeline.parse_log(log)
         labels, order, lerr = pipeline.linearise(per, threads, 2 * threads, rc, {})
-        if lerr or sorted(order) != sorted(key_batch):
+        want_keys = sorted(list(key_batch) + ([pipeline.content_key(open(dup, "rb").read())] if dup else []))
+        if lerr or sorted(order) != want_keys:
             chk.violation(dict(hist, kind="trace", clause="event log cannot be scheduled as an execution of the pipeline model: %s" % (lerr or "sent items differ from the discovered artifacts"),
                                log=open(log).read()[-3000:]), tag="trace")
             continue
